@@ -13,6 +13,7 @@ from hypothesis import strategies as st
 from vlib.runner import Clause
 from vlib import strats as S
 from vlib import fixtures as F
+from checks import c02_extra as X
 
 from pySDC.core.step import Step
 from pySDC.core.collocation import CollBase
@@ -627,4 +628,8 @@ def clauses(tier):
         Clause('sdc-sweep', prop_sdc, strategy=sdc_cases(max_nodes=mx), examples={'quick': 2400, 'thorough': 60000}),
         Clause('rk-stages', prop_rk, strategy=rk_cases(), examples={'quick': 800, 'thorough': 15000}),
         Clause('verlet', prop_verlet, strategy=verlet_cases(mx), examples={'quick': 600, 'thorough': 12000}),
+        Clause('boris', X.prop_boris, strategy=X.boris_cases(mx), examples={'quick': 400, 'thorough': 8000}),
+        Clause('rkn', X.prop_rkn, strategy=X.rkn_cases(), examples={'quick': 300, 'thorough': 6000}),
+        Clause('multistep', X.prop_multistep, strategy=X.multistep_cases(), examples={'quick': 400, 'thorough': 8000}),
+        Clause('dae', X.prop_dae, strategy=X.dae_cases(), examples={'quick': 300, 'thorough': 5000}),
     ]
